@@ -136,6 +136,7 @@ class BaseEngine(abc.ABC):
             p._clear_regrefs()
         self.run_progs.clear()
         self.samples = None
+        self.samples_dict = None
         self._latest_vals = {}
 
     def print_applied(self, print_fn=print):
@@ -541,7 +542,8 @@ class LocalEngine(BaseEngine):
             Result: results of the computation
         """
         args = args or {}
-        compile_options = compile_options or {}
+        # a copy: the default compiler is added below, the caller's dictionary is left alone
+        compile_options = dict(compile_options or {})
         temp_run_options = {}
 
         if isinstance(program, collections.abc.Sequence):
